@@ -12,14 +12,14 @@ RULE = ("cases = generated 3D plotfiles with properly nested levels on even bloc
         "{2,4,8}, bisection tilings and 'mixed' tensor tilings whose smallest extent does not "
         "divide box origins (4/6, 8/12, 16/24 cells), partial refinement, anisotropic cells, 1-4 "
         "levels, any file layout, covered coarse cells holding NaN/inf in a quarter of the cases x field x volFrac on/off x level limit, through both surfaces "
-        "(volume_integral on a limited reader; the pestle entry point with --limit_level / "
+        "(volume_integral on a limited reader, on a fresh reader with limit_level=, on one reader shared by all calls of the case; the pestle entry point with --limit_level / "
         "--volfrac); one evaluation = one integral compared with the model sum (rtol 1e-10 of "
         "sum|terms|). distinct = hash(model, field, volfrac, limit, surface); non-trivial = >=2 "
         "levels with partial refinement")
 ASSUMPTIONS = ["float reassociation only: tolerance 1e-10 * sum of |terms| (one lost or doubled cell "
                "is >= 1e-4 of that)", "pool shim M1 with shuffled schedules",
                "blocking factor even (statement's own restriction)"]
-REQUIRED_OBS = {"integrals": 100, "covered_cells_nonfinite": 3, "mixed_tilings": 2, "mixed_fine_level_tilings": 2, "uniform_boxes_offset_patches": 1, "cli_runs": 30,
+REQUIRED_OBS = {"integrals": 100, "shared_reader_calls": 100, "covered_cells_nonfinite": 3, "mixed_tilings": 2, "mixed_fine_level_tilings": 2, "uniform_boxes_offset_patches": 1, "cli_runs": 30,
                 "limited": 30, "volfrac": 30}
 TIMEOUT = {"quick": 600, "thorough": 3000}
 
@@ -102,6 +102,7 @@ def run_case(case, work, rec):
     finest = m.nlevels - 1
     partial = m.nlevels >= 2 and any((gen.level_map(m, lv + 1) == lv).any() for lv in range(finest))
     n0 = dict(contracts.COUNTS)
+    shared = PlotfileCooker(path, ghost=True)     # one reader asked many times with different limits / fields
     for field in ("rho", "q"):
         for volfrac in (False, True):
             for limit in [None] + list(range(finest + 1)):
@@ -109,7 +110,7 @@ def run_case(case, work, rec):
                 exp, mag = expected(m, m.names.index(field), m.names.index("volFrac") if volfrac else None, L)
                 tol = 1e-10 * mag
                 nboxes = sum(len(m.boxes[lv]) for lv in range(L + 1))
-                for surface in ("api", "api_arg", "cli"):
+                for surface in ("api", "api_arg", "shared", "cli"):
                     if surface == "api_arg" and limit is None:
                         continue
                     key = (digest, field, volfrac, limit, surface)
@@ -123,6 +124,10 @@ def run_case(case, work, rec):
                         elif surface == "api_arg":
                             got = volume_integral(PlotfileCooker(path, ghost=True), field, limit_level=limit,
                                                   use_volfrac=volfrac)
+                        elif surface == "shared":
+                            kw = {} if limit is None else {"limit_level": limit}
+                            got = volume_integral(shared, field, use_volfrac=volfrac, **kw)
+                            rec.count("shared_reader_calls")
                         else:
                             args = ["pestle", "-v", field, path]
                             if limit is not None:
